@@ -34,7 +34,8 @@ RULE = ('(derive) all pairs (derive operation, modification) over 24 derive oper
         'apply_to_all_phases / PhaseGroup.with_context / wrap) and 14 modifications (options '
         'attributes, list/dict containers, builder methods of measurement entries, running the '
         'derived or the source phase), enumerated completely; (runs) directed and seeded E1 '
-        'programs x settings executed 2-3 times; (pair) seeded pairs of concurrent tests under '
+        'programs x settings executed 2-3 times, optionally preceded by a diagnosis and a '
+        'measurement with a conditional validator keyed on it; (pair) seeded pairs of concurrent tests under '
         'yield injection; distinct = distinct case; non-trivial = a fingerprint or record '
         'comparison was made')
 ASSUMPTIONS = [
@@ -282,6 +283,7 @@ def enumerated(tier):
       yield {'k': 'derive', 'derive': d, 'mod': m}
   for prog, cfg in RUN_PROGS:
     yield {'k': 'runs', 'prog': prog, 'cfg': cfg, 'n': 3}
+    yield {'k': 'runs', 'prog': prog, 'cfg': cfg, 'n': 3, 'cond': True}
   yield {'k': 'pair', 'seed': None}
   yield {'k': 'pair', 'seed': 1}
 
@@ -306,7 +308,7 @@ def sampled(tier, rng):
     r = rng.random()
     if r < .6:
       yield {'k': 'runs', 'prog': pm.gen_program(rng, depth=2, width=3),
-             'cfg': pm.gen_cfg(rng), 'n': 2}
+             'cfg': pm.gen_cfg(rng), 'n': 2, 'cond': rng.random() < .5}
     else:
       yield {'k': 'pair', 'seed': rng.getrandbits(32)}
 
@@ -390,7 +392,28 @@ def run_runs(case):
     test.test_record.metadata['leak'] = 'from-an-earlier-run'
     test.logger.info('marker-from-probe')
 
-  t = H.Test(*([probe] + b.nodes))
+  head = [probe]
+  if case.get('cond'):
+    # a diagnosis made early in the run and, after it, a measurement whose
+    # conditional validator is keyed on it: what execute() attaches for this
+    # run must not end up in the declared measurement
+    class CondRes(H.DiagResultEnum):
+      SEEN = 'vf_c11_seen'
+
+    @H.PhaseDiagnoser(CondRes, name='vf_cond_diag')
+    def cond_diag(phase_record):
+      return H.Diagnosis(CondRes.SEEN, 'seen')
+
+    def vf_diag(test):
+      pass
+
+    @H.measures(H.Measurement('vf_cond').validate_on(
+        {CondRes.SEEN: H.util.validators.in_range(0, 1)}))
+    def vf_cond(test):
+      test.measurements.vf_cond = 1
+
+    head += [H.diagnose(cond_diag)(vf_diag), vf_cond]
+  t = H.Test(*(head + b.nodes))
   if cfg.get('sof') == 'opt':
     t.configure(stop_on_first_failure=True)
   recs = []
